@@ -31,7 +31,8 @@ def generate(seed, idx, tier):
   mode, D, mesh, quant = common.choose_mode(rng)
   x64 = rng.random() < 0.8
   cfg = ds_gen.gen_config(rng, emph={
-      'thr': [(0.1, 6), (0.0, 1), (1e-30, 1), (1e30, 2)],
+      'thr': [(0.1, 5), (0.01, 1), (0.7, 1), (0.003, 1), (0.2, 1), (0.0, 1),
+              (1e-30, 1), (1e30, 2)],
       'eps': [(1e-1, 1), (1e-3, 2), (1e-6, 4), (1e-12, 2), (0.0, 2)]})
   cfg = common.constrain(cfg, mode, quant, x64)
   tree = ds_gen.fix_tree_for_config(rng, ds_gen.gen_tree(rng), cfg)
